@@ -448,13 +448,28 @@ theorems need no hypothesis on `P.impls`. -/
 def dynMarker : String := "<dyn>"
 
 /-- receiver types whose recovery from `any` in a wrapper (`self.(T)` / `T(self)`) is the identity in `Go.Sem`: admitted
-    struct types (the assertion compares the struct's name), unit, bool, string, and the integer types (an integer of the
-    fragment is in range: `HasTy`) -/
+    struct types (the assertion compares the struct's name), unit, bool, string, the integer types (an integer of the
+    fragment is in range: `HasTy`), and function types (`impl Tr for (int32) -> int32`: the value is a top-level function,
+    `self.(func(int32) int32)` leaves a function value alone) -/
 def dynRecvTy (env : Env) : Ty → Bool
   | .struct n => (goodStructs env).contains n
+  -- an admitted enum: the assertion `self.(E)` to the enum's interface holds by the method-set rule (`dynRecvTableOK`)
+  | .enum n => (goodEnums env).contains n
   | .unit | .bool | .string => true
   | .int _ _ => true
+  | .func _ _ => true
   | _ => false
+
+/-- the emitted file gives every variant struct of an enum that is the receiver type of a vtable the method set of the
+    enum's interface: what the wrapper's assertion `self.(E)` checks (`GFile.structImplements`) -/
+def dynRecvTableOK (env : Env) (F : GFile) (forTy : Ty) : Bool :=
+  match forTy with
+  | .enum n =>
+    !valTy env forTy ||
+      (match env.getEnum n with
+       | some d => d.variants.all fun v => F.structImplements (variantGoName env n v.1) (gid n)
+       | none => false)
+  | _ => true
 
 /-- one vtable `(trait, receiver type)` is admissible: the file converts to it (so `go_file` emits its constructor and
     wrappers), the trait is known, its Go slot names are pairwise distinct, every method has value types and is implemented
@@ -902,7 +917,8 @@ def fileOK (env : Env) (file : AFile) (n : Nat) : Bool :=
   reservedGoNames.all (fun r => (F.findFunc r).isNone) &&
   structsClosed env && (goodStructs env).all (structTableOK env F) && (goodEnums env).all (enumTableOK env F) &&
   (collectRuntimeTypes env file).refs.all (refTableOK env F) && (collectRuntimeTypes env file).tuples.all (tupleTableOK env F) &&
-  ((collectDynRequirements file).traits ++ (collectDynRequirements file).vtables.map (·.1)).all (dynStructTableOK env F)
+  ((collectDynRequirements file).traits ++ (collectDynRequirements file).vtables.map (·.1)).all (dynStructTableOK env F) &&
+  (collectDynRequirements file).vtables.all (fun p => dynRecvTableOK env F p.2)
 
 /-- `G` is closed: the file-level conditions hold and every member passes the local checks with
     all its callees in `G` -/
@@ -1087,6 +1103,39 @@ def tyReason (env : Env) (t : Ty) : String :=
   | .array len e => if !valTy env e then "array-of-" ++ tyClass e else if len == 0 then "empty-array" else "array"
   | t => tyClass t
 
+/-- which argument of a user-function call has another type than the parameter (reports only) -/
+def argsReason : List Imm → List Ty → String
+  | [], [] => "?"
+  | a :: as, t :: ts => if scalarEq a.ty t then argsReason as ts else tyClass a.ty ++ "-for-" ++ tyClass t
+  | _, _ => "arity"
+
+/-- why `dyn[tr](e)` at receiver type `forTy` is outside (reports only); `@f`: the implementing function `f` is outside -/
+def toDynReason (env : Env) (file : AFile) (G : List String) (Γ : Ctx) (tr : String) (forTy : Ty) (e : Imm) (ty : Ty) : String :=
+  match immReason env file G Γ e with
+  | some r => r
+  | none =>
+    if !G.contains dynMarker then "node:to-dyn" else
+    if !(scalarEq e.ty forTy && scalarEq ty (.dyn tr)) then "node:to-dyn(operand-type:" ++ tyClass e.ty ++ "-for-" ++ tyClass forTy ++ ")" else
+    if !dynRecvTy env forTy then "node:to-dyn(receiver:" ++ tyReason env forTy ++ ")" else
+    if !valTy env forTy then "node:to-dyn(receiver-not-admitted:" ++ tyReason env forTy ++ ")" else
+    match traitMethodSigs env tr with
+    | none => "node:to-dyn(unknown-trait)"
+    | some sigs =>
+      if !decide ((sigs.map fun s => gid s.1).Nodup) then "node:to-dyn(slot-names-collide)" else
+      match sigs.find? (fun s => !(s.2.1.all (valTy env) && valTy env s.2.2)) with
+      | some s => "node:to-dyn(method-signature:" ++
+          (match s.2.1.find? (fun t => !valTy env t) with | some t => tyReason env t | none => tyReason env s.2.2) ++ ")"
+      | none =>
+        match sigs.find? (fun s =>
+            let impl := Goml.Mono.traitImplFnName tr forTy s.1
+            match file.find? (·.name == impl) with
+            | some _ => !G.contains impl
+            | none => true) with
+        | some s =>
+          let impl := Goml.Mono.traitImplFnName tr forTy s.1
+          if (file.find? (·.name == impl)).isSome then "call:callee-outside-fragment@" ++ impl else "node:to-dyn(impl-missing)"
+        | none => "node:to-dyn(impl-signature-or-names)"
+
 mutual
 def reasonC (env : Env) (file : AFile) (G : List String) (Γ : Ctx) (K : KCtx) : CExpr → Option String
   | .imm i => immReason env file G Γ i
@@ -1104,8 +1153,10 @@ def reasonC (env : Env) (file : AFile) (G : List String) (Γ : Ctx) (K : KCtx) :
         else if (env.getExternFn name).isSome then some "call:extern"
         else if (builtinSig name).isSome then some "call:builtin-args"
         else match file.find? (·.name == name) with
-          | some _ => if G.contains name then
-              ((firstSome args (immReason env file G Γ)).orElse fun _ => some "call:user-fn-args") else some "call:callee-outside-fragment"
+          | some g => if G.contains name then
+              ((firstSome args (immReason env file G Γ)).orElse fun _ =>
+                if argsOK env file G Γ args (g.params.map (·.2)) then some ("call:user-fn-result-type(" ++ tyClass ty ++ "-for-" ++ tyClass g.ret ++ ")")
+                else some ("call:user-fn-args(" ++ argsReason args (g.params.map (·.2)) ++ ")")) else some ("call:callee-outside-fragment@" ++ name)
           | none => some ("call:other-builtin:" ++ name)
       | _ => some "call:non-variable-callee"
   | .ite c t e ty =>
@@ -1150,7 +1201,7 @@ def reasonC (env : Env) (file : AFile) (G : List String) (Γ : Ctx) (K : KCtx) :
         | .enum tn _ _ =>
           if !(goodEnums env).contains tn then "node:enum-field-get(" ++ tyReason env (.enum tn) ++ ")"
           else "node:enum-field-get(variant-not-fixed-by-an-arm)")
-  | .toDyn tr forTy e ty => if toDynOK env file G Γ tr forTy e ty then none else some "node:to-dyn"
+  | .toDyn tr forTy e ty => if toDynOK env file G Γ tr forTy e ty then none else some (toDynReason env file G Γ tr forTy e ty)
   | .dynCall tr m recv args ty => if dynCallOK env file G Γ tr m recv args ty then none else some "node:dyn-call"
   | .go e ty => if goOK env file G Γ e ty then none else some "node:go"
   | .proj e idx ty =>
@@ -1170,8 +1221,8 @@ def reasonD (env : Env) (file : AFile) (G : List String) (Γ : Ctx) (K : KCtx) :
   | .some e => reasonA env file G Γ K e
 end
 
-/-- `none` when `inGoFragment`, else the first reason found -/
-def outsideReason (env : Env) (file : AFile) (n : Nat) (G : List String) (closed : Bool) (st : St) (f : AFn) : Option String :=
+/-- `none` when `inGoFragment`, else the first reason found (a callee outside the fragment is named after `@`) -/
+def outsideReasonRaw (env : Env) (file : AFile) (n : Nat) (G : List String) (closed : Bool) (st : St) (f : AFn) : Option String :=
   if closed && G.contains f.name then none
   else if !fileOK env file n then some "file:go-function-names-collide-or-reserved"
   else if !(f.params.all (fun p => valTy env p.2)) then
@@ -1185,5 +1236,30 @@ def outsideReason (env : Env) (file : AFile) (n : Nat) (G : List String) (closed
       else if !goLocalOK env file G st f then some "go-names:declared-twice-or-captured"
       else if !noConstExpr env st f then some "go-const-expr:operation-on-literals-not-exact"
       else some "closure-check-failed"
+
+/-- `none` when `inGoFragment`, else the first reason found -/
+def outsideReason (env : Env) (file : AFile) (n : Nat) (G : List String) (closed : Bool) (st : St) (f : AFn) : Option String :=
+  (outsideReasonRaw env file n G closed st f).map fun r => (r.splitOn "@").headD r
+
+/-- every function of the file with the compiler state `compile_fn` finds when it reaches it -/
+def fnStates (env : Env) : St → AFile → List (St × AFn)
+  | _, [] => []
+  | st, f :: rest => (st, f) :: fnStates env (compileFn env st f).2 rest
+
+/-- the ROOT reason (reports only): follow `call:callee-outside-fragment@g` into `g`, looking in `g` for the first clause
+    that fails once the functions already visited are treated as members (so a recursive cycle does not hide the clause
+    that keeps it outside); answers `(function where the chain ends, its first failing clause)` -/
+def rootReason (env : Env) (file : AFile) (n : Nat) (G : List String) (closed : Bool) : Nat → List String → String → String × String
+  | 0, _, name => (name, "call:callee-outside-fragment(chain too long)")
+  | k + 1, seen, name =>
+    match (fnStates env { n := n, ok := true } file).find? (·.2.name == name) with
+    | none => (name, "call:missing-function")
+    | some (st, f) =>
+      match outsideReasonRaw env file n (G ++ seen) (closed && !seen.contains name && seen.isEmpty) st f with
+      | none => (name, "in-fragment(?)")
+      | some r =>
+        match r.splitOn "@" with
+        | [_, callee] => rootReason env file n G closed k (name :: seen) callee
+        | _ => (name, r)
 
 end Goml.GoFrag
